@@ -14,7 +14,7 @@ pub fn def() -> CheckDef {
         bounds_quick: "circuits over {add,sub,and,xor,neg,copy,const,discard} with <=2 operations (every multiset of kinds, both edge orders), W<=4 nodes, <=2 inputs, <=2 outputs; wiring and 64-bit input values symbolic (cyclic, multiply-written and fan-out wirings included)",
         bounds_thorough: "<=3 operations, W<=5",
         jobs,
-        budget_s: (170, 3000),
+        budget_s: (170, 1500),
     }
 }
 
@@ -148,7 +148,7 @@ pub fn jobs(tier: Tier, seed: u64) -> Vec<Job> {
 pub fn jobs_with(tier: Tier, seed: u64, need_rw: bool) -> Vec<Job> {
     let per_job = Duration::from_secs(match tier {
         Tier::Quick => 60,
-        Tier::Thorough => 1200,
+        Tier::Thorough => 600,
     });
     let cfg = base_cfg(tier);
     let (max_ops, wmax) = match tier {
